@@ -19,6 +19,7 @@ import openpyxl.formula.tokenizer as tokenizer
 from networkx.classes.digraph import DiGraph
 from networkx.exception import NetworkXError
 
+from pycel import _verif
 from pycel.excelutil import (
     AddressMultiAreaRange,
     AddressRange,
@@ -896,6 +897,9 @@ class ExcelFormula:
             name_space['_R_'] = evaluate_range
             name_space['_REF_'] = AddressRange.create
             name_space['pi'] = math.pi
+            if _verif.ENABLED:  # pragma: no cover
+                name_space['_C_'] = _verif.wrap_read('_C_', evaluate, excel_formula)
+                name_space['_R_'] = _verif.wrap_read('_R_', evaluate_range, excel_formula)
 
             # function to fixup the operands
             name_space['excel_operator_operand_fixup'] = \
@@ -950,6 +954,8 @@ class ExcelFormula:
 
             return ret_val if ret_val not in (None, EMPTY) else 0
 
+        if _verif.ENABLED:  # pragma: no cover
+            eval_func = _verif.wrap_eval(eval_func)
         return eval_func
 
     def _compile_python_ast(self):
